@@ -355,7 +355,11 @@ func runC01(c *Ctx) error {
 	if err := c01Wrappers(c); err != nil {
 		return err
 	}
-	return c01Concurrent(c)
+	if err := c01Concurrent(c); err != nil {
+		return err
+	}
+	// the less-travelled doors (c01doors.go; inventory in notes/C01-findings.md)
+	return c01Doors(c)
 }
 
 // c01Concurrent: several independent sessions (own key, own randomness, own garbling, own
